@@ -1235,11 +1235,36 @@ class Mesh:
     def remove_duplicate_nodes(self):
         p, t = self._remove_duplicate_nodes(self.doflocs,
                                             self.t)
-        return replace(
+        m = replace(
             self,
             doflocs=p,
             t=t,
+            _boundaries=None,
         )
+        if self._boundaries is None:
+            return m
+        # the vertices are renumbered and hence the facets: find the old
+        # facets among the new ones through their vertices
+        ix = np.zeros(self.doflocs.shape[1], dtype=np.int32)
+        ix[self.t] = t
+        old = np.sort(ix[self.facets], axis=0)
+        nnew = m.facets.shape[1]
+        _, inv = np.unique(np.hstack((np.sort(m.facets, axis=0), old)),
+                           axis=1, return_inverse=True)
+        inv = inv.flatten()
+        pos = np.zeros(np.max(inv) + 1, dtype=np.int32)
+        pos[inv[:nnew]] = np.arange(nnew, dtype=np.int32)
+        newf = pos[inv[nnew:]]
+        boundaries = {}
+        for k, v in self._boundaries.items():
+            facets = newf[np.asarray(v)]
+            if isinstance(v, OrientedBoundary):
+                owner = self.f2t[v.ori, np.asarray(v)]
+                ori = (m.f2t[1, facets] == owner).astype(np.int32)
+                boundaries[k] = OrientedBoundary(facets, ori)
+            else:
+                boundaries[k] = np.unique(facets)
+        return replace(m, _boundaries=boundaries)
 
     def element_finder(self, mapping=None):
         """Return a function handle from location to element index.
